@@ -22,7 +22,7 @@ def check_cuts_array(
     Returns
     -------
     cuts : np.ndarray
-        The unmodified input cuts array.
+        The input cuts array as int64.
 
     Raises
     ------
@@ -34,6 +34,8 @@ def check_cuts_array(
 
     if not np.issubdtype(cuts.dtype, np.integer):
         raise ValueError("The cuts must be of integer type.")
+    # Unsigned dtypes wrap around in the differences below and in the scorers.
+    cuts = cuts.astype(np.int64, copy=False)
 
     if cuts.shape[-1] != last_dim_size:
         raise ValueError(
